@@ -155,7 +155,7 @@ func buildCellScene(pl *place, id s2.CellID) *scene {
 	point(0, "point:centre", ab{0.5, 0.5})
 	for k := 0; k < 4; k++ {
 		for _, in := range cornerInsets {
-			e, n := in.e, "(inset " + in.name + ")"
+			e, n := in.e, "(inset "+in.name+")"
 			point(k, "point:in-corner-sliver"+n, ab{e, e})
 			point(k, "point:outside-corner-diagonally"+n, ab{-e, -e})
 			point(k, "point:outside-next-to-corner-across-edge"+n, ab{2 * e, -e})
@@ -173,7 +173,7 @@ func buildCellScene(pl *place, id s2.CellID) *scene {
 	path(0, "path:closed-ring-around-the-cell", ab{-0.1, -0.1}, ab{1.1, -0.1}, ab{1.1, 1.1}, ab{-0.1, 1.1}, ab{-0.1, -0.1})
 	for k := 0; k < 4; k++ {
 		for _, in := range cornerInsets {
-			e, n := in.e, "(inset " + in.name + ")"
+			e, n := in.e, "(inset "+in.name+")"
 			path(k, "path:clips-corner-no-vertex-inside"+n, ab{3 * e, -e}, ab{-e, 3 * e})
 			path(k, "path:clips-corner-vertex-in-sliver"+n, ab{3 * e, -e}, ab{e, e}, ab{-e, 3 * e})
 			path(k, "path:passes-outside-corner"+n, ab{e, -2 * e}, ab{-2 * e, e})
@@ -198,7 +198,7 @@ func buildCellScene(pl *place, id s2.CellID) *scene {
 	area(0, "area:[far, inside-at-centre] (2 polygons)", far(0), [][]s2.Point{loop(0, abRect(0.42, 0.42, 0.58, 0.58))})
 	for k := 0; k < 4; k++ {
 		for _, in := range cornerInsets {
-			e, n := in.e, "(inset " + in.name + ")"
+			e, n := in.e, "(inset "+in.name+")"
 			area(k, "area:triangle-in-corner-sliver"+n, [][]s2.Point{loop(k, []ab{{0.5 * e, 0.5 * e}, {2.5 * e, 0.5 * e}, {0.5 * e, 2.5 * e}})})
 			area(k, "area:triangle-outside-corner"+n, [][]s2.Point{loop(k, []ab{{-0.5 * e, -0.5 * e}, {-0.5 * e, -2.5 * e}, {-2.5 * e, -0.5 * e}})})
 			area(k, "area:triangle-over-corner-containing-the-cell-vertex"+n, [][]s2.Point{loop(k, []ab{{-2 * e, -2 * e}, {4 * e, -2 * e}, {-2 * e, 4 * e}})})
